@@ -8,7 +8,7 @@
    frame.pack()/to_bytes(), time.time().  They are the trusted part of this tie; everything between them -
    the loops, deadlines, state strings, retries, checks, early returns, exception handlers - is translated. *)
 From Coq Require Import String.
-From Ubx Require Import Fields Base Checksum Frame ParserUbx ParserNmea CfgKeys Request.
+From Ubx Require Import Fields Base Checksum Frame ParserUbx ParserNmea CfgKeys Request Gpsd.
 Open Scope N_scope.
 
 Inductive pyval :=
@@ -27,7 +27,10 @@ Inductive pyval :=
 | PUbxParser (p : parser)                        (* a UbxParser object held in a local (scan()) *)
 | PNmeaParser (n : nparser)                      (* a NmeaParser object held in a local (scan()) *)
 | PObj (attrs : list (string * pyval))           (* a plain object: its attributes (CfgKeyData, Item) *)
-| PText (b : bytes).                             (* a Python str holding text data, as its UTF-8 encoding (CH fields) *)
+| PText (b : bytes)                              (* a Python str holding text data, as its UTF-8 encoding (CH fields) *)
+| PDict (m : list (string * pyval))              (* a dict with string keys, in insertion order (json.loads) *)
+| PChunk (c : chunk)                             (* a block of bytes received from the gpsd data socket *)
+| PLine (l : line).                              (* one line of such a block, as text *)
 
 Definition cidZ (c : cid) : Z * Z := (Z.of_N (fst c), Z.of_N (snd c)).
 Definition cidN (c : Z * Z) : cid := (Z.to_N (fst c), Z.to_N (snd c)).
@@ -46,6 +49,8 @@ Definition truthy (v : pyval) : bool :=
   | PList l | PTuple l => negb (is_nil l)
   | PCid _ | PFrame _ | PReq _ _ | PCls _ _ | PFactory | PUbxParser _ | PNmeaParser _ | PObj _ => true
   | PText b => negb (is_nil b)
+  | PDict m => negb (is_nil m)
+  | PChunk _ | PLine _ => true
   end.
 
 (* == on the kinds the code compares: None, bool, int, str, bytes, UbxCID (its __eq__ compares cls and id) *)
@@ -172,6 +177,43 @@ Definition py_bytes_for_size (b : pyval) : res pyval :=
   end.
 Definition py_key_sign (sk : list N) (k : pyval) : res pyval := match k with PInt z => Ok (PBool (sign_of sk (Z.to_N z))) | _ => Raise TypeError end.
 
+(* ---- JSON values, dicts, the lines of a gpsd block (server.py) ------------------------------------- *)
+Fixpoint jv (v : json) : pyval :=
+  match v with
+  | JObj m => PDict ((fix go (l : list (string * json)) : list (string * pyval) :=
+                        match l with [] => [] | (k, x) :: t => (k, jv x) :: go t end) m)
+  | JArr l => PList ((fix go (l : list json) : list pyval := match l with [] => [] | x :: t => jv x :: go t end) l)
+  | JStr s => PStr s
+  | JNum => PInt 0                (* some number: nothing in the handshake depends on which *)
+  | JBool b => PBool b
+  | JNull => PNone
+  end.
+(* dict lookup as json.loads builds it: the last duplicate wins *)
+Fixpoint dict_get (m : list (string * pyval)) (k : string) : option pyval :=
+  match m with
+  | [] => None
+  | (k', v) :: t => match dict_get t k with Some x => Some x | None => if String.eqb k k' then Some v else None end
+  end.
+Definition py_is_dict (v : pyval) : bool := match v with PDict _ => true | _ => false end.
+Definition py_in (k d : pyval) : bool :=
+  match k, d with PStr s, PDict m => match dict_get m s with Some _ => true | None => false end | _, _ => false end.
+(* d[k]: KeyError on a dict without the key; TypeError on anything that is not subscriptable by a string *)
+Definition py_getitem (d k : pyval) : res pyval :=
+  match d, k with
+  | PDict m, PStr s => match dict_get m s with Some v => Ok v | None => Raise KeyError end
+  | _, _ => Raise TypeError
+  end.
+(* data.decode().splitlines(): UnicodeDecodeError on binary data *)
+Definition py_decode_lines (d : pyval) : res pyval :=
+  match d with
+  | PChunk Undecodable => Raise UnicodeError
+  | PChunk (Lines ls) => Ok (PList (map PLine ls))
+  | _ => Raise AttributeError
+  end.
+(* json.loads(line): JSONDecodeError (a ValueError; a RecursionError on absurd nesting is lumped with it) or the value *)
+Definition py_json_loads (l : pyval) : res pyval :=
+  match l with PLine NotJson => Raise ValueError | PLine (J v) => Ok (jv v) | _ => Raise TypeError end.
+
 (* local parser objects of scan(): UbxParser(None) has no filter; obj.process(data) updates the object *)
 Definition py_new_ubx_parser (crc_cid : pyval) : pyval := PUbxParser (fresh None).
 Definition py_new_nmea_parser : pyval := PNmeaParser nfresh.
@@ -272,6 +314,19 @@ Fixpoint s_for_range (n : nat) (body : stmt) : stmt := fun l w =>
       | other => other
       end
   end.
+(* for x in <list>: <body>   (only lists are iterable here: iterating anything else raises TypeError) *)
+Fixpoint s_for_items (items : list pyval) (setvar : L -> pyval -> L) (body : stmt) : stmt := fun l w =>
+  match items with
+  | [] => CNormal l w
+  | x :: t =>
+      match body (setvar l x) w with
+      | CNormal l' w' | CContinue l' w' => s_for_items t setvar body l' w'
+      | CBreak l' w' => CNormal l' w'
+      | other => other
+      end
+  end.
+Definition s_for_list (it : L -> W -> pyval) (setvar : L -> pyval -> L) (body : stmt) : stmt := fun l w =>
+  match it l w with PList items => s_for_items items setvar body l w | _ => CRaise TypeError l w end.
 Definition range_count (v : pyval) : nat := match v with PInt z => Z.to_nat z | _ => O end.
 
 (* try: <body> except <classes1>: <h1> except <classes2>: <h2> ... *)
